@@ -35,6 +35,16 @@ type Case struct {
 	Wrap    string     `json:"wrap"` // "T" | "map"
 	ViaFunc bool       `json:"viafunc,omitempty"`
 	Prefix  string     `json:"prefix,omitempty"`
+	// Seed != 0: the File is built under the form policy (literals through LitFunc / LitRuneFunc callbacks,
+	// lists through ...Func variants, function form + Add): user code that runs once, when the pair is built
+	Seed uint64 `json:"seed,omitempty"`
+}
+
+func (c Case) builder(k uint64) *recipe.Builder {
+	if c.Seed == 0 {
+		return &recipe.Builder{}
+	}
+	return &recipe.Builder{Forms: recipe.Seeded(c.Seed + k)}
 }
 
 func (c Case) file(noFormat bool) *recipe.File { return c.fileN(noFormat, 1) }
@@ -117,11 +127,11 @@ func normalise(s string) string {
 
 func check(c Case) error {
 	// expected live pairs: render key and value recipes alone, raw, against a file with the same prefix
-	rawOut, err := rt.Render(&recipe.Builder{}, c.file(true))
+	rawOut, err := rt.Render(c.builder(0), c.file(true))
 	if err != nil {
 		return fmt.Errorf("NoFormat render: %v", err)
 	}
-	fmtOut, err := rt.Render(&recipe.Builder{}, c.file(false))
+	fmtOut, err := rt.Render(c.builder(0), c.file(false))
 	if err != nil {
 		return fmt.Errorf("formatted render failed: %s", rt.Short(err.Error(), 600))
 	}
@@ -588,6 +598,9 @@ func genCase(t *rapid.T) Case {
 		}
 	}
 	// two null keys would be two distinct map keys; fine. But the builder maps a nil key to Null().
+	if rapid.Bool().Draw(t, "forms") {
+		c.Seed = rapid.Uint64Range(1, 1<<40).Draw(t, "formseed")
+	}
 	return c
 }
 
